@@ -11,7 +11,9 @@ AGGR = ["SUM", "AVG", "LEN", "FLOOR", "CEIL"]
 NAME_CLASSES = {
     "plain": ["A", "B", "C", "D", "E", "Feat", "feature_x", "X1", "y2z", "Root", "Wifi", "GPS",
               "Screen", "Basic", "HD", "Camera", "MP3", "abc", "Q", "Z9"],
-    "space": ["my feat", "a b c", " lead", "trail ", "two  spaces"],
+    "space": ["my feat", "a b c", " lead", "trail ", "two  spaces",
+              # blanks that str.strip / str.split / str.splitlines treat specially
+              "Size\u00a0", "\u2028Line", "Wide\u3000", "Pay\u2028ment", "x\u0085y", "Tab\u2009le", "\u00a0"],
     "punct": ["a-b", "x+y", "p/q", "k:v", "semi;colon", "hash#1", "par(en)", "br[ack]", "cur{ly}",
               "a,b", "eq=1", "bang!", "q?", "at@", "star*", "pipe|", "amp&", "pct%", "tilde~"],
     "keyword": ["or", "and", "not", "features", "constraints", "Integer", "Boolean", "String",
@@ -19,8 +21,14 @@ NAME_CLASSES = {
                 "alternative", "namespace", "imports", "include", "cardinality", "abstract",
                 "NOT", "AND", "OR", "XOR", "IMPLIES", "REQUIRES", "EXCLUDES", "EQUIVALENCE", "IFF",
                 "requires", "excludes", "implies", "iff", "xor", "floor", "ceil"],
-    "lead": ["1abc", "9", "_x", "_", "0start", "__init__"],
-    "nonascii": ["ñandú", "特徴", "Größe", "émoji😀", "αβγ", "naïve", "Ω"],
+    "lead": ["1abc", "9", "_x", "_", "0start", "__init__", "2024", "\u0663\u0662", "\u00b2", "10\u00b2", "007"],
+    "nonascii": ["ñandú", "特徴", "Größe", "émoji😀", "αβγ", "naïve", "Ω",
+                 # the two spellings (NFC / NFD) of one word, compatibility characters, conjoining jamo
+                 "Cr\u00e8me", "Cre\u0300me", "cafe\u0301", "\u212b", "\u2126", "\u1100\u1161",
+                 # characters whose UTF-8 form contains the bytes 0x85 / 0xa0 / 0x0a-looking continuation bytes
+                 "\u0105", "\u00c5", "\u0445\u043b\u0435\u0431", "\u0120",
+                 # decimal digits that are not ASCII (str.isdigit / \d / int() accept them)
+                 "Room\u0663", "v\uff11", "size\u0968", "x\u00b2"],
     "quote": ["it's", "say\"hi\"", "a.b", "'quoted'", "\"dq\"", ".", "end.", "'"],
     "special": ["<a&b>", "a>b", "&amp;", "back\\slash", "tab\there", "new\nline", "]]>", "<!--"],
     "long": ["L" * 70, "x" * 300],
@@ -181,12 +189,13 @@ class Gen:
         if k == "bool":
             return rng.random() < 0.5
         if k == "int":
-            return rng.choice([0, 0, 1, -1, 7, 42, -300, 10**6, 2**70])
+            return rng.choice([0, 0, 1, -1, 7, 42, -300, 10**6, 2**70, 2**53 + 1, 10**22 + 7, 2**62 - 1, -(2**53) - 1])
         if k == "float":
             return rng.choice([0.5, 1.25, -2.75, 3.0, 100.125, 0.1, -0.001, 12345.678, 0.0, 1.0])
         if k == "str":
             return rng.choice(["x", "hello world", "ñ", "a-b", "UPPER", "with \"dq\"", "1", "true", "True", "False", "None",
-                               "null", "0", "1.0", "", "[1]", "C:\\new", "a\\nb\\t", "back\\slash\\"])
+                               "null", "0", "1.0", "", "[1]", "C:\\new", "a\\nb\\t", "back\\slash\\",
+                               "cafe\u0301", "\u212b ngstrom", "\u1100\u1161", "Ω\u2126"])
         if k == "list":
             if depth > 1:
                 return [1, 2]
@@ -352,6 +361,18 @@ def nest_ctcs(ops=LOGICAL, extra_bins=()):
         yield OP("AND", OP("IMPLIES", A, B), OP("IMPLIES", C, A))
         yield OP("AND", OP("IMPLIES", A, B), OP("IMPLIES", B, C))
         yield OP("AND", OP("IMPLIES", A, B), OP("IMPLIES", A, C))
+    if "AND" in bins and "IMPLIES" in bins and "OR" in bins:
+        # right-nested chains (readers build left-nested ones): six conjuncts, a fan-out of three, a fan-in of three
+        imps = [OP("IMPLIES", A, B), OP("IMPLIES", B, C), OP("IMPLIES", C, A), OP("IMPLIES", A, C), OP("IMPLIES", B, A),
+                OP("IMPLIES", C, B)]
+        chain = imps[-1]
+        for t in reversed(imps[:-1]):
+            chain = OP("AND", t, chain)
+        yield chain
+        yield OP("IMPLIES", A, OP("AND", B, OP("AND", C, OP("NOT", A))))
+        yield OP("IMPLIES", A, OP("AND", B, OP("AND", C, B)))
+        yield OP("IMPLIES", OP("OR", A, OP("OR", B, C)), OP("NOT", A))
+        yield OP("IMPLIES", OP("OR", A, OP("OR", B, OP("NOT", C))), C)
     for o1 in bins:
         yield OP(o1, A, B)
         yield OP(o1, OP("NOT", A), B)
@@ -379,11 +400,12 @@ def nest_models(ops=LOGICAL, chunk=1):
 
 
 def case_twin_models(ops=("REQUIRES", "EXCLUDES", "IMPLIES", "OR", "AND"), names=("Xa", "xa", "Yb", "yb"),
-                     same_name=True):
+                     same_name=True, cardinal=True):
     """same-shaped constraints over names differing only in letter case; the same constraint twice;
     one constraint naming two case twins; different constraints carrying one and the same name (a constraint's
     name is a label, not a key: same_name=False for the one format that keys its constraints by name)"""
     a, a2, b, b2 = names
+    yield from big_models(cardinal, "IMPLIES" if "IMPLIES" in ops else ops[0])
     for o in ops:
         if same_name:
             m = free_model([OP(o, T(a), T(b)), OP(o, T(b), T(b2)), OP(o, T(b2), T(a))], names)
@@ -392,3 +414,24 @@ def case_twin_models(ops=("REQUIRES", "EXCLUDES", "IMPLIES", "OR", "AND"), names
         yield free_model([OP(o, T(a), T(b)), OP(o, T(a2), T(b2))], names)
         yield free_model([OP(o, T(a), T(b)), OP(o, T(a), T(b))], names)
         yield free_model([OP(o, T(a), T(a2))], names)
+
+
+def big_models(cardinal=True, op="IMPLIES"):
+    """what only shows with SIZE: groups of more than 256 children (CPython shares int objects up to 256), identifiers
+    numbered past 9 (F1 is a prefix of F10; "Constraint 10" sorts before "Constraint 2"), a branching-factor average above
+    10 with two decimals, names that differ only in the spelling of a number"""
+    kids = [F(f"K{j}") for j in range(300)]
+    kids[0]["rels"].append(R(0, 1, [F("Opt")]))
+    yield dict(root=F("Big", [R(1, 300, kids)]), ctcs=[])
+    if cardinal:
+        kids = [F(f"S{j}") for j in range(257)]
+        kids[3]["rels"].append(R(1, 1, [F("Deep")]))
+        kids[5]["rels"].append(R(1, 1, [F("Xa"), F("Xb")]))
+        yield dict(root=F("All", [R(257, 257, kids)]), ctcs=[])
+    names = [f"F{j}" for j in range(12)]
+    ctcs = [(f"Constraint {j}", OP(op, T(names[(j + 10) % 12]), T(names[(j + 1) % 12]))) for j in range(12)]
+    yield dict(root=F("Num", [R(0, 1, [F(n)]) for n in names]), ctcs=ctcs)
+    branches = [F(f"B{j}", [R(0, 1, [F(f"B{j}c{i}")]) for i in range(k)]) for j, k in enumerate((13, 13, 12))]
+    yield dict(root=F("Avg", [R(1, 1, [b]) for b in branches]), ctcs=[])
+    yield dict(root=F("Nat", [R(1, 3, [F("F7", [R(0, 1, [F("Ch1")]), R(0, 1, [F("Ch01")])]), F("F07"), F("F007")])]),
+               ctcs=[("c0", OP("EXCLUDES", T("F7"), T("F07")))])
